@@ -729,3 +729,21 @@ def run_case(cfg):
                                                                   "tol": tol2}, wrt=lab, off_sample=off_sample))
     obs["r2"] = rnd(worst, 2)
     return {"viol": viol, "obs": obs, "status": "violation" if viol else "ok", "n": nexec}
+
+# ---- call-order plane (executed by mc/core.py in fresh interpreters, see mc/props/_hist_common.py): the result of
+# a call must not depend on which other calls (other dtype / method / size / options) were made before it
+_HIST_LABELS = [('float32', 5, -2.0), ('float64', 5, -2.0), ('float64', 6, -2.0), ('float64', 5, -1.0)]
+HISTORY = {"labels": ["/".join(str(x) for x in c) for c in _HIST_LABELS], "tol": [0.0001, 1e-12, 1e-12, 1e-12],
+           "depth": {"quick": 2, "thorough": 3},
+           "prelude": r'''import torch, xitorch
+from xitorch.integrate import mcquad
+CALLS = %r
+def do(i):
+    dtn, ns, lb = CALLS[i]
+    dt = getattr(torch, dtn)
+    a = torch.tensor(0.8, dtype=dt)
+    w = torch.tensor(0.9, dtype=dt)
+    y = mcquad(lambda x, a: (a * x * x + torch.cos(x)).sum(), lambda x, w: (-x * x / (2 * w * w)).sum(), torch.zeros(1, dtype=dt),
+               fparams=(a,), pparams=(w,), method="_dummy1d", nsamples=ns, lb=lb, ub=2.0)
+    return y.double().reshape(-1).tolist()
+''' % (_HIST_LABELS,)}
